@@ -499,7 +499,7 @@ def domain_guard(chk, prog, refs=None):
     return n
 
 
-ALL = {"UNIT-GUARD": lambda chk, prog, files: unit_guard(chk, prog, files), "PARAM-DEAD": param_dead, "SWAPPED-ARGS": swapped_args, "METHOD-TRUTH": method_truth, "VIEW-SWAP": view_swap,
+ALL = {"POSE-DIV": lambda chk, prog, files: pose_div(chk, prog, files), "UNIT-GUARD": lambda chk, prog, files: unit_guard(chk, prog, files), "PARAM-DEAD": param_dead, "SWAPPED-ARGS": swapped_args, "METHOD-TRUTH": method_truth, "VIEW-SWAP": view_swap,
        "MODULE-STATE": module_state, "SHADOW-REBIND": shadow_rebind, "CASE-MIXED": case_mixed, "INT-ALLOC": int_alloc}
 
 
@@ -552,7 +552,7 @@ def _lint_fixture_alloc(p):
 '''
 FIXTURE_HOST = "ahrs/common/frames.py"
 # rule -> properties that own it (None = every property, on its anchor files)
-OWNERS = {"UNIT-GUARD": None, "PARAM-DEAD": None, "SWAPPED-ARGS": None, "METHOD-TRUTH": None, "VIEW-SWAP": None, "INT-ALLOC": None, "CASE-MIXED": None,
+OWNERS = {"POSE-DIV": {"C03", "C04", "C05", "C13", "C02", "C07"}, "UNIT-GUARD": None, "PARAM-DEAD": None, "SWAPPED-ARGS": None, "METHOD-TRUTH": None, "VIEW-SWAP": None, "INT-ALLOC": None, "CASE-MIXED": None,
           "SHADOW-REBIND": None,
           # process-wide hidden state only contradicts properties that promise repeatability / isolation / history independence
           "MODULE-STATE": {"C06", "C15", "C19"}}
@@ -585,6 +585,20 @@ def self_test(chk, prog):
             fn(sink, p2, [FIXTURE_HOST])
         except Exception as e:       # a crashing lint must not look like a silent one
             chk.error("lint %s crashed on its positive example: %s: %s" % (name, type(e).__name__, e))
+    # POSE-DIV is table-driven: its positive example is a pose-dependent divisor inserted (in memory) into a tabled function
+    def tr2(tree):
+        for c in ast.walk(tree):
+            if isinstance(c, ast.ClassDef) and c.name == "Tilt":
+                for g in c.body:
+                    if isinstance(g, ast.FunctionDef) and g.name == "estimate":
+                        g.body.insert(1, ast.parse("_pd = acc[0] / np.sqrt(acc[1]**2 + acc[2]**2)").body[0])
+                        return True
+        return False
+    try:
+        p3 = prog.mutated("ahrs/filters/tilt.py", tr2)
+        pose_div(sink, p3, ["ahrs/filters/tilt.py"])
+    except Exception as e:
+        chk.error("lint POSE-DIV crashed on its positive example: %s: %s" % (type(e).__name__, e))
     for name in ALL:
         fired = name in sink.rules
         chk.canary("lint %s fires on its embedded positive example" % name, fired, "" if fired else "no finding on the fixture")
@@ -740,4 +754,43 @@ def gate_report(chk, pid):
         else:
             chk.record("GATE-BAND", site, "gate captures rotations within %.3e rad of %s only" % (width, "pi" if where == "pi" else "0"))
     chk.counts["GATE-BAND.gates"] = n
+    return n
+
+
+# -------------------------------------------------------------------------------------------------------------- POSE-DIV
+# Functions that today divide only by literals, by norms, or by values under a dominating non-zero guard (confirmed by listing every division with its
+# value number): they have no pose at which a divisor vanishes by construction.  A new divisor that is a computed, pose-dependent quantity (a component,
+# a sqrt of a sum of components, a difference...) gives them a singular pose (0/0 = NaN) they did not have.
+POSE_FREE = [
+    "ahrs/common/orientation.py::acc2q", "ahrs/common/orientation.py::am2angles", "ahrs/common/orientation.py::am2DCM", "ahrs/common/orientation.py::chiaverini",
+    "ahrs/common/orientation.py::rpy2q", "ahrs/common/orientation.py::q2R",
+    "ahrs/filters/tilt.py::Tilt.estimate", "ahrs/filters/tilt.py::Tilt._compute_all", "ahrs/filters/complementary.py::Complementary.am_estimation",
+    "ahrs/filters/fqa.py::FQA.estimate", "ahrs/filters/saam.py::SAAM.estimate", "ahrs/filters/triad.py::TRIAD.estimate", "ahrs/filters/oleq.py::OLEQ.estimate",
+    "ahrs/filters/madgwick.py::Madgwick.updateIMU", "ahrs/filters/madgwick.py::Madgwick.updateMARG", "ahrs/filters/mahony.py::Mahony.updateIMU",
+    "ahrs/filters/mahony.py::Mahony.updateMARG", "ahrs/filters/ekf.py::EKF.update", "ahrs/filters/ukf.py::UKF.update", "ahrs/filters/fourati.py::Fourati.update",
+    "ahrs/filters/roleq.py::ROLEQ.oleq", "ahrs/filters/fkf.py::FKF.measurement_quaternion_acc_mag",
+]
+POSE_OK_PREFIX = ("c:", "norm(", "P:", "S:", "g:")
+
+
+def pose_div(chk, prog, files):
+    from .facts import Facts
+    n = 0
+    for ref in POSE_FREE:
+        rel = ref.split("::")[0]
+        if rel not in files:
+            continue
+        f = prog.func(ref)
+        fa = Facts(f, prog).analyse()
+        for d in fa.divisions:
+            n += 1
+            vn = d["vn"]
+            if vn.startswith(POSE_OK_PREFIX) or d["guarded"]:
+                continue
+            node = d["node"]
+            div = ast.unparse(node.right if isinstance(node, ast.BinOp) else node)[:70]
+            chk.finding("POSE-DIV", f.module.rel, f.qname, "division: %s" % ast.unparse(node)[:90],
+                        "`%s` is a pose-dependent quantity with no dominating non-zero guard: it vanishes for some attitude (an axis exactly vertical, a half-turn ...) and the "
+                        "result is NaN there; every other divisor of this function is a literal, a norm or a guarded value" % div, line=node.lineno)
+    chk.counts["POSE-DIV.divisions"] = chk.counts.get("POSE-DIV.divisions", 0) + n
     return n
